@@ -456,3 +456,60 @@ def check_abort_wiring(chk, ix):
             fail(us, "undefined_steps returns %r" % (vals,), "runner.undefined_steps does not hand out the stored list itself (%r): steps that "
                  "model code appends through it are lost and the 'new undefined steps' part of the verdict is never true (false green "
                  "in dry-run)" % (vals,))
+
+
+def check_tag_hook_owner_real_context(chk, ix):
+    """H1 with a Context made by its own __init__ (whatever attributes that defines at the root level): a failing tag
+    hook is charged to the innermost element that is currently set on the context - scenario, else rule, else feature."""
+    from .values import ClassVal
+    chk.rule("H1", WHAT["H1"])
+    cc = ix.cls("behave.runner:Context")
+    mr = ix.cls("behave.runner:ModelRunner")
+    rh = mr.lookup("run_hook")
+    for levels in (("feature",), ("feature", "rule"), ("feature", "scenario"), ("feature", "rule", "scenario")):
+        stubs = {"weakref.proxy": lambda i, s_, a, k, n: [(s_, "val", a[0])], "@with": "transparent",
+                 "Context.use_with_user_mode": lambda i, s_, a, k, n: [(s_, "val", "USER-MODE")],
+                 "ExceptionUtil.describe": lambda i, s_, a, k, n: [(s_, "val", "error text")],
+                 "ExceptionUtil.set_traceback": lambda i, s_, a, k, n: [(s_, "val", None)],
+                 "print": lambda i, s_, a, k, n: [(s_, "val", None)],
+                 "ElemTok.store_exception_context": lambda i, s_, a, k, n: [(s_, "val", None)]}
+        it = Interp(ix, stubs=stubs, name="run_hook with a real Context")
+        it.shared_consts = True
+        it.int_sat = 100
+        it.list_cap = 100
+        st = State()
+        st.frames = []
+
+        def user_hook(i, s_, a, k, n):
+            return [(s_, "raise", Exc("RuntimeError", None, "user hook"))]
+        user_hook.__name__ = "before_tag"
+        cfg = st.alloc(HObj("ConfigTok", {"dry_run": False, "verbose": False}, open=True, label="config"))
+        runner = st.alloc(HObj(mr, {"config": cfg, "hooks": st.alloc(HObj("dict", kind="dict", items=[("before_tag", user_hook)])),
+                                    "hook_failures": 0}, open=True, label="runner"))
+        ctx = st.alloc(HObj(cc, {}, label="context"))
+        o0 = it.call_function(st, cc.lookup("__init__"), [runner], {}, None, self_val=ctx)
+        if len(o0) != 1 or o0[0][1] != "val":
+            raise AnalysisError("Context.__init__ not evaluable: %r" % ([(k, v) for _, k, v in o0][:2],))
+        cur = o0[0][0]
+        elems = {}
+        for lv in levels:
+            e = cur.alloc(HObj("ElemTok", {"hook_failed": False, "error_message": None, "tags": ("sometag",), "name": lv, "keyword": lv.title()}, label=lv))
+            elems[lv] = e
+            outs = it.set_attr(cur, ctx, lv, e, None)
+            if len(outs) != 1 or outs[0][1] != "next":
+                raise AnalysisError("context.%s = element not evaluable" % lv)
+            cur = outs[0][0]
+        outs = it.call_function(cur, rh, ["before_tag", ctx, "sometag"], {}, None, self_val=runner)
+        chk.absorb(it)
+        chk.instance("H1")
+        if len(outs) != 1 or outs[0][1] != "val":
+            raise AnalysisError("run_hook not evaluable with a real Context (%s): %r" % ("/".join(levels), [(k, v) for _, k, v in outs][:3]))
+        s2 = outs[0][0]
+        marked = [lv for lv in levels if s2.obj(elems[lv]).fields.get("hook_failed") is True]
+        want = [levels[-1]]
+        if marked == want:
+            chk.ok("H1", {"context built by Context.__init__ with": list(levels), "failing before_tag charged to": marked}, nontrivial_key=("real-context", levels))
+        else:
+            chk.fail(_f("H1", rh, RH, None, "elements %s: charged to %s" % ("/".join(levels), marked or "nobody"),
+                        "a raising before_tag hook while the context holds %s is charged to %s, expected %s: the failure is not recorded on "
+                        "the element whose tag it is, so that element still runs and reports passed" % (list(levels), marked or "nobody", want)))
